@@ -28,7 +28,7 @@ def gen_case(r):
         if k < 25: ev.append(("up", n, r.below(256), 0xA0, [r.below(256)]))
         elif k < 45: ev.append(("up", n, r.below(256), 0xA1, [r.below(256)]))
         elif k < 65:
-            size = r.choice([8, 16, 24, 64, 128, 128, 8, 0, 4, 136, 12]) ; base = r.choice([0, 8, 16, 64, 3])
+            size = r.choice([8, 16, 24, 64, 128, 128, 8, 0, 4, 136, 12]) ; base = r.choice([0, 8, 16, 64, 3, 0x80, 0xC0, 0xF0, 0xF8])
             ev.append(("up", n, r.below(256), 0xA2, [base, size] + [r.below(256) for _ in range(size // 8 + 2)]))
         elif k < 80: ev.append(("up", n, r.below(256), 0xAC, [r.below(256) for _ in range(5)]))
         elif k < 86: ev.append(("up", n, 0, 0x8E, [r.choice([1, 0])]))            # stall / unstall
